@@ -16,7 +16,7 @@ FORMATS = {
     "scene": ["glb", "gltf", "3mf", "dict", "zip_glb", "obj", "stl", "ply"],
     "points": ["ply", "xyz", "glb"],
     "path2d": ["dxf", "svg", "dict"],
-    "path3d": ["dict", "glb"],
+    "path3d": ["dict", "glb", "ply"],
     "voxel": ["binvox"],
 }
 ALL_PAIRS = [(k, f) for k, fs in FORMATS.items() for f in fs]
